@@ -55,6 +55,8 @@ func (m *MDP) DecodeFromBytes(data []byte, df gopacket.DecodeFeedback) error {
 		df.SetTruncated()
 		return fmt.Errorf("MDP length %d too short", len(data))
 	}
+	// every TLV is optional: do not keep the values of an earlier decode
+	*m = MDP{}
 	m.Type = EthernetTypeMerakiDiscoveryProtocol
 	m.Length = len(data)
 	offset := 28
